@@ -1,2 +1,41 @@
-(* C10 — placeholder *)
-From HC Require Import Base.
+(* C10 — a storage error surfaces as an error and is recoverable by reopening (pinned statements; proofs in
+   Fault.v). Storage::flush_infos applies storage operations in order and stops at the first failure.
+   Proved: a flush in which operation number k fails reports the I/O error, leaves core and events untouched,
+   and leaves on disk (and in the journal) exactly the first k operations: the cut of the fault-free journal
+   at k; for every operation of the core, every prefix of the operations it writes is a well-defined disk from
+   which the remaining operations lead to the final disk. Hence every state a single failing WRITE, DELETE or
+   TRUNCATE can leave is one of the crash states of C02, whose recovery C02/C07/C08 treat.
+   Partial by nature: that the crate propagates every Result with `?` (instead of dropping it, unwrapping it or
+   carrying on), and failing READS / length queries, cannot be expressed in the model; they are decided on every
+   run by tools/c10.py, which injects one I/O error at EVERY storage operation (reads and length queries
+   included, during open too) of every generated history: the call must answer an error — never success, a panic
+   or a hang — and reopening must show the before-or-after state with everything earlier intact. *)
+From HC Require Import Base NMap Codec Crypto FlatTree Storage Bitfield Oplog Merkle Core CoreFacts Fault.
+
+Theorem C10_failed_flush_is_a_cut : forall ops k c w c1 w1,
+  (k < length ops)%nat ->
+  emit ops c w = (c1, w1, Ok tt) ->
+  exists wk,
+    emit_fail k ops c w = (c, wk, Err IOErr) /\
+    w_journal wk = rev (firstn k ops) ++ w_journal w /\
+    apply_sops (w_disk w) (firstn k ops) = Some (w_disk wk) /\
+    apply_sops (w_disk wk) (skipn k ops) = Some (w_disk w1) /\
+    w_events wk = w_events w.
+Proof. exact emit_fail_is_cut. Qed.
+
+Theorem C10_fault_states_are_crash_cuts : forall cr,
+  (forall f batch, fault_states_are_cuts (core_append cr f batch)) /\
+  (forall f s e, fault_states_are_cuts (core_clear cr f s e)) /\
+  (forall f pf, fault_states_are_cuts (core_apply_proof cr f pf)) /\
+  fault_states_are_cuts (core_make_read_only cr) /\
+  (forall i, fault_states_are_cuts (core_get i)).
+Proof. exact operations_fault_states. Qed.
+
+Theorem C10_journal_prefixes_apply : forall d l d' k,
+  apply_sops d l = Some d' ->
+  exists dk, apply_sops d (firstn k l) = Some dk /\ apply_sops dk (skipn k l) = Some d'.
+Proof. exact apply_sops_prefix. Qed.
+
+Print Assumptions C10_failed_flush_is_a_cut.
+Print Assumptions C10_fault_states_are_crash_cuts.
+Print Assumptions C10_journal_prefixes_apply.
